@@ -621,6 +621,8 @@ static Boolean DecodeBitArg2(
         return False;
     }
 
+    AdrMode = ModNone;
+    MomSize = eSymbolSizeUnknown;
     DecideAbsolute(pRegArg, MModAbs8);
     if (AdrMode != ModAbs8) {
         return False;
